@@ -156,3 +156,23 @@ Proof.
   - intros k a p. cbn. do 3 (destruct p as [|p]; [split; unfold Qle; simpl; lia|]). split; unfold Qle; simpl; lia.
   - intros k. do 5 (destruct k as [|k]; [unfold Qle; simpl; lia|]). unfold Qle; simpl; lia.
 Qed.
+
+(* Where VLE._setup finds its rows (imol['l'], imol['g'], fetched through the indexer's key cache on every call): after
+   MaterialIndexer._expand_phases (copy_like / mix_from of material with a phase the stream lacks: rows re-ordered in place for the
+   widened, sorted phase tuple, key cache re-selected for it) every key still leads to the row of ITS phase -- the old row for an old
+   phase, an empty one for a new phase -- so the VLE of the history theorems keeps working on the liquid and the gas row. *)
+Theorem C03_expand_phases_keeps_rows : forall x all n p,
+  ixr_ok (expand_phases x all n) /\
+  (forall i, pos p all = Some i ->
+     row_of (expand_phases x all n) p =
+     match pos p (ix_ph x) with Some j => nth j (ix_rows x) [] | None => repeat 0 n end).
+Proof. exact expand_rows_lemma. Qed.
+Print Assumptions C03_expand_phases_keeps_rows.
+
+(* ('g', 'l') widened by 'L': the keys still reach their rows; with the key cache of the OLD tuple kept, 'l' would reach the gas row *)
+Example C03_expand_phases_example :
+  let x := mkixr [2; 3]%nat [[1; 0]; [0; 5]] (kc_for [2; 3]%nat) in
+  row_of (expand_phases x [0; 2; 3]%nat 2) 3 = [0; 5] /\ row_of (expand_phases x [0; 2; 3]%nat 2) 2 = [1; 0] /\
+  row_of (expand_phases x [0; 2; 3]%nat 2) 0 = [0; 0] /\
+  row_of (mkixr [0; 2; 3]%nat [[0; 0]; [1; 0]; [0; 5]] (kc_for [2; 3]%nat)) 3 = [1; 0].
+Proof. cbv zeta. repeat split; vm_compute; reflexivity. Qed.
